@@ -36,10 +36,32 @@ class TLCResult:
         self.coverage = {}              # action name -> (distinct, total) when -coverage is on
         self.cmd = ""
         self.postcondition_failed = False
+        self.checked = {}          # what the configuration asked TLC to check (read back from the cfg text)
 
     def summary(self):
-        return dict(cmd=self.cmd, generated=self.generated, distinct=self.distinct, depth=self.depth,
-                    wall_s=round(self.wall_s, 2), ok=self.ok, violated=self.violated)
+        d = dict(cmd=self.cmd, generated=self.generated, distinct=self.distinct, depth=self.depth,
+                 wall_s=round(self.wall_s, 2), ok=self.ok, violated=self.violated)
+        d.update(self.checked)
+        return d
+
+
+def _checked_items(cfg_text, module):
+    """module, specification, invariants, properties, postcondition and constants of a configuration (for evidence)."""
+    out = dict(module=module)
+    kinds = dict(INVARIANT="invariants", INVARIANTS="invariants", PROPERTY="properties", PROPERTIES="properties",
+                 POSTCONDITION="postcondition", SPECIFICATION="specification", ACTION_CONSTRAINT="action_constraints")
+    consts = []
+    for line in cfg_text.splitlines():
+        toks = line.split()
+        if not toks:
+            continue
+        if toks[0] in kinds:
+            out.setdefault(kinds[toks[0]], []).extend(toks[1:])
+        elif toks[0] in ("CONSTANT", "CONSTANTS") or "=" in line or "<-" in line:
+            consts.append(" ".join(toks[1:] if toks[0] in ("CONSTANT", "CONSTANTS") else toks))
+    if consts:
+        out["constants"] = " ; ".join(c for c in consts if c)[:400]
+    return out
 
 
 _STATES_RE = re.compile(r"(\d+) states generated, (\d+) distinct states found")
@@ -189,6 +211,11 @@ def run(module, cfg_text=None, cfg_path=None, workers=None, simulate=None, depth
         res.returncode = proc.returncode
         res.wall_s = time.time() - t0
         res.cmd = " ".join(cmd[cmd.index("tlc2.TLC"):])
+        try:
+            with open(cfg) as fh:
+                res.checked = _checked_items(fh.read(), module)
+        except OSError:
+            pass
         res.extra_out = {}
         for fn in os.listdir(work):
             if fn.endswith(".out.ndjson") or fn.endswith(".out.json"):
